@@ -460,3 +460,86 @@ func AccessPath(v ssa.Value) string {
 	}
 	return fmt.Sprintf("%s@%p", v.Name(), v)
 }
+
+// MayBeNil reports whether the (error or pointer) value v can be nil, as far
+// as its construction shows: a value made by fmt.Errorf / errors.New / a
+// conversion to an interface / an allocation cannot; errors.WithDeferred(a, b)
+// can only if both can, errors.Annotate(a, …) only if a can; the result of a
+// function literal or of a helper of the module is what it returns, with its
+// parameters standing for the arguments.  Everything else can.
+func MayBeNil(v ssa.Value) bool { return mayBeNil(v, nil, 0) }
+
+func mayBeNil(v ssa.Value, env map[ssa.Value]ssa.Value, depth int) bool {
+	for _, leaf := range FlattenPhi(ResolveLocalLoad(v)) {
+		if mayBeNilLeaf(leaf, env, depth) {
+			return true
+		}
+	}
+	return false
+}
+
+func mayBeNilLeaf(v ssa.Value, env map[ssa.Value]ssa.Value, depth int) bool {
+	if mapped, ok := env[v]; ok && depth < 6 {
+		return mayBeNil(mapped, nil, depth+1)
+	}
+	switch x := v.(type) {
+	case *ssa.Const:
+		return x.IsNil()
+	case *ssa.MakeInterface, *ssa.Alloc, *ssa.MakeMap, *ssa.MakeSlice, *ssa.MakeClosure, *ssa.FieldAddr, *ssa.IndexAddr:
+		return false
+	case *ssa.ChangeInterface:
+		return mayBeNil(x.X, env, depth)
+	case *ssa.Call:
+		k := CalleeKey(x.Common())
+		args := x.Common().Args
+		switch k {
+		case "fmt.Errorf", "errors.New", "github.com/AdguardTeam/golibs/errors.Error.Error":
+			return false
+		case "github.com/AdguardTeam/golibs/errors.WithDeferred":
+			return len(args) != 2 || (mayBeNil(args[0], env, depth) && mayBeNil(args[1], env, depth))
+		case "github.com/AdguardTeam/golibs/errors.Annotate":
+			return len(args) < 1 || mayBeNil(args[0], env, depth)
+		}
+		if depth >= 3 {
+			return true
+		}
+		// a function literal or a helper of the module: its returns
+		var h *ssa.Function
+		var bound ssa.Value
+		if sc := Impl(x.Common().StaticCallee()); sc != nil {
+			h = sc
+		} else if ts := CallTargets(x.Common()); len(ts) == 1 {
+			h, bound = ts[0].Fn, ts[0].Recv
+		}
+		if h == nil || len(h.Blocks) == 0 || !InModule(h) || h.Signature.Results().Len() != 1 || h == x.Parent() {
+			return true
+		}
+		sub := map[ssa.Value]ssa.Value{}
+		ps := h.Params
+		if bound != nil && len(ps) > 0 {
+			sub[ps[0]] = bound
+			ps = ps[1:]
+		}
+		for i, prm := range ps {
+			if i < len(args) {
+				a := args[i]
+				if m, ok := env[a]; ok {
+					a = m
+				}
+				sub[prm] = a
+			}
+		}
+		for _, b := range h.Blocks {
+			if len(b.Instrs) == 0 || b == h.Recover {
+				continue
+			}
+			if ret, ok := AsReturn(b.Instrs[len(b.Instrs)-1]); ok && len(ret.Results) == 1 {
+				if mayBeNil(Res(ret, 0), sub, depth+1) {
+					return true
+				}
+			}
+		}
+		return false
+	}
+	return true
+}
